@@ -174,4 +174,247 @@ theorem BInv_register (g : Grammar) (s : St) (el : Nat) (n : Node) (parent : Opt
   · exact BInv_mark g _ el _ false h2
   · exact h2
 
+/-! ### the recursion -/
+
+abbrev RecB (rec : Rec) : Prop :=
+  ∀ c p i h s r s', BInv s → rec c p i h s = some (r, s') →
+    BInv s' ∧ s.heap.length ≤ s'.heap.length ∧ (∀ r0, r = some r0 → r0 < s'.heap.length)
+
+theorem mem_insertAt (l : List Slot) (i : Nat) (v x : Slot) (h : x ∈ insertAt l i v) : x ∈ l ∨ x = v := by
+  simp only [insertAt, List.mem_append, List.mem_cons] at h
+  rcases h with h | h | h
+  · exact Or.inl (List.mem_of_mem_take h)
+  · exact Or.inr h
+  · exact Or.inl (List.mem_of_mem_drop h)
+
+theorem stepKid_B (rec : Rec) (ret : Nat) (hrec : RecB rec) :
+    ∀ c i s i' s', BInv s → stepKid rec ret c i s = some (i', s') →
+      BInv s' ∧ s.heap.length ≤ s'.heap.length := by
+  intro c i s i' s' hB h
+  unfold stepKid at h
+  have hB1 : BInv (addPlaceholder s ret i) ∧ (addPlaceholder s ret i).heap.length = s.heap.length := by
+    unfold addPlaceholder
+    have hn := node_inB hB ret
+    split
+    · rename_i l hl
+      rw [hl] at hn
+      refine ⟨BInv_setKw s ret _ hB ?_, setKw_len _ _ _⟩
+      simp only [Kw.inB, List.all_eq_true] at hn ⊢
+      intro x hx
+      rcases mem_insertAt _ _ _ _ hx with hx | rfl
+      · exact hn x hx
+      · rfl
+    · exact ⟨hB, rfl⟩
+  split at h
+  · exact absurd h (by simp)
+  · rename_i item s2 hr
+    obtain ⟨hB2, hlen2, hres⟩ := hrec _ _ _ _ _ _ _ hB1.1 hr
+    have hlen : s.heap.length ≤ s2.heap.length := by rw [← hB1.2]; exact hlen2
+    have hn2 := node_inB hB2 ret
+    split at h <;> simp only [Option.some.injEq, Prod.mk.injEq] at h <;> obtain ⟨_, rfl⟩ := h
+    · rename_i r _ _ _
+      exact ⟨BInv_setKw s2 ret _ hB2 (by simp [Kw.inB, Slot.inB, hres r rfl]), by rw [setKw_len]; exact hlen⟩
+    · rename_i r l hl _
+      rw [hl] at hn2
+      refine ⟨BInv_setKw s2 ret _ hB2 ?_, by rw [setKw_len]; exact hlen⟩
+      simp only [Kw.inB, List.all_eq_true] at hn2 ⊢
+      intro x hx
+      rcases List.mem_or_eq_of_mem_set hx with hx | rfl
+      · exact hn2 x hx
+      · simp [Slot.inB, hres r rfl]
+    · exact ⟨hB2, hlen⟩
+    · rename_i l hl _
+      rw [hl] at hn2
+      refine ⟨BInv_setKw s2 ret _ hB2 ?_, by rw [setKw_len]; exact hlen⟩
+      simp only [Kw.inB, List.all_eq_true] at hn2 ⊢
+      intro x hx
+      exact hn2 x (List.mem_of_mem_eraseIdx hx)
+    · exact ⟨hB2, hlen⟩
+
+theorem loopKids_B (rec : Rec) (ret : Nat) (hrec : RecB rec) :
+    ∀ kids i s s', BInv s → loopKids rec ret kids i s = some s' → BInv s' ∧ s.heap.length ≤ s'.heap.length := by
+  intro kids
+  induction kids with
+  | nil => intro i s s' hB h; simp [loopKids] at h; exact h ▸ ⟨hB, Nat.le_refl _⟩
+  | cons c cs ih =>
+    intro i s s' hB h
+    unfold loopKids at h
+    split at h
+    · exact absurd h (by simp)
+    · rename_i i' s1 hs
+      obtain ⟨a, b⟩ := stepKid_B rec ret hrec _ _ _ _ _ hB hs
+      obtain ⟨c1, c2⟩ := ih _ _ _ a h
+      exact ⟨c1, Nat.le_trans b c2⟩
+
+theorem setComplete_B (s : St) (el : Nat) (h : BInv s) : BInv (setComplete s el) := by
+  unfold setComplete
+  cases hl : aget s.lookup el with
+  | none => exact h
+  | some st => exact BInv_setL s s.index el { st with complete := true } h (h.lk el st hl)
+
+theorem post_B (el : Nat) (n : Node) (hint : Option String) (ret : Nat) (s : St) (h : BInv s)
+    (hret : ret < s.heap.length) :
+    BInv (post el n hint ret s).2 ∧ s.heap.length ≤ (post el n hint ret s).2.heap.length ∧
+      (∀ r0, (post el n hint ret s).1 = some r0 → r0 < (post el n hint ret s).2.heap.length) := by
+  have h1 : BInv (post1 n hint ret s).2 ∧ s.heap.length ≤ (post1 n hint ret s).2.heap.length ∧
+      (post1 n hint ret s).1 < (post1 n hint ret s).2.heap.length := by
+    unfold post1
+    split
+    · exact ⟨BInv_alloc s _ h rfl, by simp [St.alloc], by simp [St.alloc]⟩
+    · exact ⟨h, Nat.le_refl _, hret⟩
+  obtain ⟨a1, a2, a3⟩ := h1
+  have h2 := setComplete_B _ el a1
+  have hlen2 : (setComplete (post1 n hint ret s).2 el).heap.length = (post1 n hint ret s).2.heap.length := by
+    rw [setComplete_heap]
+  unfold post
+  simp only
+  split
+  · split
+    · have h3 := BInv_extract _ el h2
+      have hlen3 := (HS_extract (setComplete (post1 n hint ret s).2 el) el).1
+      refine ⟨BInv_alloc _ _ h3 rfl, ?_, ?_⟩
+      · simp only [newNT, St.alloc, List.length_append, List.length_singleton]; omega
+      · intro r0 hr0
+        simp only [newNT, St.alloc, Option.some.injEq] at hr0
+        simp only [newNT, St.alloc, List.length_append, List.length_singleton]
+        omega
+    · refine ⟨h2, by dsimp only; omega, ?_⟩
+      intro r0 hr0
+      dsimp only at hr0 ⊢
+      simp only [Option.some.injEq] at hr0
+      omega
+  · refine ⟨h2, by dsimp only; omega, ?_⟩
+    intro r0 hr0
+    dsimp only at hr0 ⊢
+    simp only [Option.some.injEq] at hr0
+    omega
+
+theorem annotate_B (o : Opts) (n : Node) (r : Option Nat) (s : St) (h : BInv s)
+    (hr : ∀ r0, r = some r0 → r0 < s.heap.length) :
+    BInv (annotate o n r s).2 ∧ s.heap.length ≤ (annotate o n r s).2.heap.length ∧
+      (∀ r0, (annotate o n r s).1 = some r0 → r0 < (annotate o n r s).2.heap.length) := by
+  unfold annotate
+  split
+  · exact ⟨h, Nat.le_refl _, fun r0 hr0 => absurd hr0 (by simp)⟩
+  · rename_i ref
+    split
+    · refine ⟨BInv_alloc s _ h ?_, by simp [St.alloc], ?_⟩
+      · have := hr ref rfl
+        simp only [Kw.inB, Slot.inB, decide_eq_true_eq]; omega
+      · intro r0 hr0
+        simp only [St.alloc, Option.some.injEq] at hr0
+        simp only [St.alloc, List.length_append, List.length_singleton]
+        omega
+    · exact ⟨h, Nat.le_refl _, hr⟩
+
+/-- **referential integrity**: for ALL grammars, a returning call of `_to_diagram_element` keeps every
+    stored reference inside the heap and returns a reference into the heap -/
+theorem conv_B (g : Grammar) (o : Opts) : ∀ fuel, RecB (conv g o fuel) := by
+  intro fuel
+  induction fuel with
+  | zero => intro el p i h s r s' _ hc; simp [conv] at hc
+  | succ f ih =>
+    intro el p i h s r s' hB hc
+    unfold conv at hc
+    cases hg : g[el]? with
+    | none =>
+      simp only [hg, Option.some.injEq, Prod.mk.injEq] at hc
+      obtain ⟨rfl, rfl⟩ := hc
+      exact ⟨hB, Nat.le_refl _, fun r0 hr0 => absurd hr0 (by simp)⟩
+    | some n =>
+      simp only [hg] at hc
+      cases hb : convBody g o (conv g o f) el n p i h s with
+      | none => simp [hb] at hc
+      | some rs =>
+        obtain ⟨r1, s1⟩ := rs
+        simp only [hb, Option.some.injEq] at hc
+        suffices hh : BInv s1 ∧ s.heap.length ≤ s1.heap.length ∧ (∀ r0, r1 = some r0 → r0 < s1.heap.length) by
+          obtain ⟨a1, a2, a3⟩ := annotate_B o n r1 s1 hh.1 hh.2.2
+          rw [hc] at a1 a2 a3
+          exact ⟨a1, Nat.le_trans hh.2.1 a2, a3⟩
+        unfold convBody at hb
+        cases hp : pre g o el n p i h s with
+        | pass c h' =>
+          simp only [hp] at hb
+          exact ih _ _ _ _ _ _ _ hB hb
+        | ret r0 s0 =>
+          simp only [hp, Option.some.injEq, Prod.mk.injEq] at hb
+          obtain ⟨rfl, rfl⟩ := hb
+          unfold pre at hp
+          split at hp
+          · exact absurd hp (by simp)
+          · split at hp
+            · simp only [Pre.ret.injEq] at hp
+              obtain ⟨rfl, rfl⟩ := hp
+              have hm := BInv_mark g s el h false hB
+              have hlm := (HS_mark g s el h false).1
+              refine ⟨BInv_alloc _ _ hm rfl, ?_, ?_⟩
+              · simp only [newNT, St.alloc, List.length_append, List.length_singleton]; omega
+              · intro r0 hr0
+                simp only [newNT, St.alloc, Option.some.injEq] at hr0
+                simp only [newNT, St.alloc, List.length_append, List.length_singleton]
+                omega
+            · simp only [Pre.ret.injEq] at hp
+              obtain ⟨rfl, rfl⟩ := hp
+              refine ⟨BInv_alloc _ _ hB rfl, by simp [newNT, St.alloc], ?_⟩
+              intro r0 hr0
+              simp only [newNT, St.alloc, Option.some.injEq] at hr0
+              simp only [newNT, St.alloc, List.length_append, List.length_singleton]
+              omega
+            · unfold preFresh at hp
+              split at hp
+              · simp only [Pre.ret.injEq] at hp
+                obtain ⟨rfl, rfl⟩ := hp
+                exact ⟨hB, Nat.le_refl _, fun r0 hr0 => absurd hr0 (by simp)⟩
+              · split at hp
+                · simp only [Pre.ret.injEq] at hp
+                  obtain ⟨rfl, rfl⟩ := hp
+                  exact ⟨hB, Nat.le_refl _, fun r0 hr0 => absurd hr0 (by simp)⟩
+                · exact absurd hp (by simp)
+        | loop ret s0 =>
+          simp only [hp] at hb
+          have hreg : BInv s0 ∧ ret < s0.heap.length ∧ s.heap.length ≤ s0.heap.length := by
+            unfold pre at hp
+            split at hp
+            · exact absurd hp (by simp)
+            · split at hp
+              · exact absurd hp (by simp)
+              · exact absurd hp (by simp)
+              · unfold preFresh at hp
+                split at hp
+                · exact absurd hp (by simp)
+                · split at hp
+                  · exact absurd hp (by simp)
+                  · rename_i pn hd
+                    simp only [Pre.loop.injEq] at hp
+                    obtain ⟨rfl, rfl⟩ := hp
+                    have hk : pn.kw.inB 0 = true := by
+                      have := dispatch_noRef g o n (nameOf n h)
+                      rw [hd] at this; exact this
+                    have hl := (register_LS g s el n p i pn (by
+                      have := dispatch_shape g o n (nameOf n h)
+                      rw [hd] at this
+                      simp only [kwShapeOK] at this
+                      cases hkw : pn.kw with
+                      | leaf => exact Or.inr (Or.inr rfl)
+                      | item v => exact Or.inr (Or.inl ⟨v, rfl⟩)
+                      | items l =>
+                        rw [hkw] at this
+                        simp only [List.isEmpty_iff] at this
+                        exact Or.inl (by rw [this])) false (fun _ _ => rfl))
+                    obtain ⟨e1, e2, a, ha, _⟩ := hl
+                    refine ⟨BInv_register g s el n p i pn hB hk, ?_, e2.hlen⟩
+                    rw [e1]
+                    exact (List.getElem?_eq_some_iff.mp ha).1
+          obtain ⟨hB0, hret0, hlen0⟩ := hreg
+          cases hl : loopKids (conv g o f) ret n.kids 0 s0 with
+          | none => simp [hl] at hb
+          | some s2 =>
+            simp only [hl, Option.some.injEq] at hb
+            obtain ⟨hB2, hlen2⟩ := loopKids_B (conv g o f) ret ih _ _ _ _ hB0 hl
+            obtain ⟨q1, q2, q3⟩ := post_B el n h ret s2 hB2 (by omega)
+            rw [hb] at q1 q2 q3
+            dsimp only at q1 q2 q3
+            exact ⟨q1, by omega, q3⟩
+
 end PP.Diagram
